@@ -44,6 +44,17 @@ def getOptStrList (j : Json) (k : String) : Except String (Option (List String))
   | .error _ => .ok none          -- absent: the argument is not given
   | _ => .error s!"!bad-arg:{k}"
 
+/-- `eval`: false = `globals_=False`, true / "default" = an evaluating context -/
+def getEv (j : Json) : Bool :=
+  match j.getObjVal? "eval" with
+  | .ok (.bool b) => b
+  | .ok (.str _) => true
+  | _ => false
+
+def showName : Option Str → String
+  | none => "n-"
+  | some s => "n\"" ++ escStr s ++ "\""
+
 def getKinds (j : Json) : Except String (ContainerKind × ContainerKind × ContainerKind × ContainerKind) := do
   let kinds ← (← getStrList j "kinds").mapM fun k =>
     match k with
@@ -100,8 +111,8 @@ def showOptOut : Option Str → String
 def h : Handler := fun op j =>
   match op with
   | "parse" => do
-      match toReaction (← getAllowed j) (← getS j "token") (← getS j "line") with
-      | .ok r => pure ("ok " ++ showReaction r)
+      match toReaction (getEv j) (← getAllowed j) (← getS j "token") (← getS j "line") with
+      | .ok r => pure ("ok " ++ showReaction r ++ " " ++ showName r.name)
       | .error e => pure (showErr e)
   | "multiplicity" => do
       let ss ← getStrList j "strings"
@@ -176,7 +187,7 @@ def h : Handler := fun op j =>
   | "system_lines" => do
       pure (showStrs (systemLines (← getCommentTokens j) (← getS j "text")))
   | "system_parse" => do
-      match systemFromString (← getCommentTokens j) (← getAllowed j) (← getS j "token") (← getS j "text") with
+      match systemFromString (getEv j) (← getCommentTokens j) (← getAllowed j) (← getS j "token") (← getS j "text") with
       | .ok rs => pure ("ok " ++ " ; ".intercalate (rs.map showReaction))
       | .error e => pure (showErr e)
   | "system_print" => do
@@ -189,7 +200,7 @@ def h : Handler := fun op j =>
       match printReaction arrow false false r with
       | none => pure "Unmodelled"
       | some s =>
-        match toReaction .none arrow s with
+        match toReaction false .none arrow s with
         | .ok r' => pure (if Reaction.eq r' r then "True" else "False")
         | .error e => pure (showErr e)
   | _ => .error "!bad-op"
